@@ -473,7 +473,69 @@ def _sig_blank_lines(case):
     return case["site"].endswith("fix_too_many_blank_lines")
 
 
-SIGS = {"direct_edit": _sig_direct_edit, "prepass_ws": _sig_prepass_ws, "naming_occurrence": _sig_naming_occurrence}
+def _sig_remove_nodes(case):
+    """The stage hands processing.remove_nodes (directly or through alter_code(removals=...)) a node that lies on
+    the annotated line, and what is left of the line afterwards is its bare comment: remove_nodes has no ignore
+    test (hunt C20-0; site owned by c10h).  Established by re-running the stage with a spy on remove_nodes."""
+    mods = common.import_impl()
+    proc, core = mods["processing"], mods["core"]
+    a, b, site, line = case.get("stage_input"), case.get("stage_output"), case["site"], case["line"]
+    if not isinstance(a, str) or not isinstance(b, str) or "." not in site:
+        return False
+    m = IGNORE_DOC_RE.search(line)
+    hash_at = line.find("#")
+    if not m or hash_at < 0:
+        return False
+    comment = line[hash_at:].strip()
+    if not any(l.strip() == comment for l in py_lines(b)):      # the orphaned comment
+        return False
+    modname, fname = site.split(".", 1)
+    fn = getattr(mods.get(modname), fname, None)
+    if fn is None:
+        return False
+    target = case.get("dedented") or line
+    hits = []
+    orig = proc.remove_nodes
+
+    def spy(source, nodes, root):
+        nodes = list(nodes)
+        pos = 0
+        for l in py_lines(source):
+            if strip_term(l) in (target, line):
+                for n in nodes:
+                    try:
+                        r = core.get_charnos(n, source)
+                    except Exception:  # noqa
+                        continue
+                    if r.start < pos + len(l) and pos < r.end:
+                        hits.append((r.start, r.end))
+            pos += len(l)
+        return orig(source, nodes, root)
+    proc.remove_nodes = spy
+    try:
+        core.parse.cache_clear()
+        with common.quiet():
+            try:
+                fn(a)
+            except TypeError:
+                fn(a, preserve=frozenset())
+    except Exception:  # noqa
+        pass
+    finally:
+        proc.remove_nodes = orig
+    return bool(hits)
+
+
+def _sig_cr_only_else_regex(case):
+    """format_code raises IndexError on a file whose only line terminator is \\r and that has an `else:` for
+    remove_redundant_else: its textual regexes know \\n only (site owned by c02h)"""
+    src = case.get("source", "")
+    return (case["site"].startswith("exception:IndexError") and "\r" in src and "\n" not in src
+            and re.search(r"\belse:", src) is not None)
+
+
+SIGS = {"direct_edit": _sig_direct_edit, "prepass_ws": _sig_prepass_ws, "naming_occurrence": _sig_naming_occurrence,
+        "remove_nodes_no_ignore_test": _sig_remove_nodes, "cr_only_else_regex": _sig_cr_only_else_regex}
 DIRECT_EDIT_SITES: set = set()
 
 
@@ -712,13 +774,13 @@ def check(run: common.Run):
                 common.log(f"note: known finding {f.id} no longer reproduces")
 
     # ---- verdicts
-    seen_sites, shown = set(), 0
-    for c in sweep_fail:
+    seen_sites, shown = set(), Counter()
+    for c in sweep_fail:   # one report per (family, site), at most 4 per family
         key = (c.get("family"), c["site"])
-        if key in seen_sites or shown >= 10:
+        if key in seen_sites or shown[c.get("family")] >= 4:
             continue
         seen_sites.add(key)
-        shown += 1
+        shown[c.get("family")] += 1
         run.violation({"kind": "property-oracle", **c,
                        "explanation": "a line carrying an ignore comment is not present verbatim in format_code's output "
                                       "and no listed finding covers this site/shape"}, True)
@@ -750,7 +812,7 @@ def check(run: common.Run):
               "Sweep: every physical line of %d trigger programs annotated with an ignore comment, format_code, line "
               "present verbatim; failures bisected by stage tracing. Non-trivial = at least one line carries an "
               "ignore comment; distinct by source text." % len(TRIGGERS)),
-        samples=[items[0][0], items[n_exh // 2][0], items[-1][0], next(iter(sweep_cases(run.tier)))[3]],
+        samples=[items[0][0], items[n_exh // 2][0], items[-1][0], next(iter(sweep_cases(run.tier)))["source"]],
         exhaustive=False, exhaustive_part=n_exh, random_part=nrand + nml, sweep_cases=n_sweep,
         entry_point_cases=len(ep), histogram=dict(hist),
         correspondence_disagreements=len(disagreements), property_oracle_failures=len(sweep_fail) + len(skip_fail) + len(ep_fail),
